@@ -1363,6 +1363,26 @@ impl Server {
         Ok(())
     }
 
+    /// Verification hook: report the state this connection is handed back to the pool in.
+    #[cfg(feature = "verif_hooks")]
+    pub fn verif_checkin_event(&self) {
+        if crate::verif::enabled() {
+            crate::verif::event(
+                "checkin",
+                &format!(
+                    "\"spid\":{},\"port\":{},\"in_tx\":{},\"in_copy\":{},\"data\":{},\"dirty\":{},\"bad\":{}",
+                    self.process_id,
+                    self.address.port,
+                    self.in_transaction,
+                    self.in_copy_mode,
+                    self.data_available,
+                    self.cleanup_state.needs_cleanup(),
+                    self.bad
+                ),
+            );
+        }
+    }
+
     /// get Server stats
     pub fn stats(&self) -> Arc<ServerStats> {
         self.stats.clone()
